@@ -68,6 +68,9 @@ def _is_ceil8(b, sl):
         return True
     if not dc and ar == {"Add", "Shr"} and {7, 3} <= sl["consts"]:
         return True
+    # x / 8 + (x % 8 != 0)
+    if not dc and ar == {"Add", "Div", "Rem"} and 8 in sl["consts"] and sl["consts"] <= {8, 0, 1} and ({"Ne", "Gt"} & set(sl["ops"])):
+        return True
     return False
 
 
@@ -148,7 +151,7 @@ def take_rules(F, rep, P):
                 good = good and end is not None and not end["p"] and 1 <= end["l"] <= b.j["argc"]
                 why = "the number of samples removed from the buffer is not the caller's amount"
             rep.check(R, what, good, loc_of(b, t), "", why + ": samples are lost (or delivered twice) on a partial read")
-    rep.floor(R, "buffer drains in the decode front-ends", n, 2)
+    rep.floor(R, "buffer drains in the decode front-ends", n, 1)
 
 
 def run(ctx, rep):
